@@ -68,3 +68,8 @@ pub fn max_usize(a: usize, b: usize) -> (r: usize)
 pub proof fn axiom_vec_len(v: &Vec<u8>)
     ensures v.len() <= isize::MAX
 { }
+
+#[verifier::external_body]
+pub proof fn axiom_slice_len(v: &[u8])
+    ensures v.len() <= isize::MAX
+{ }
